@@ -406,7 +406,10 @@ class DiagLayer:
                         pass
 
                 if not gnr_found:
-                    raise e
+                    # this candidate service cannot interpret the
+                    # message. This is only an error if none of the
+                    # other candidates can do so either.
+                    continue
 
         if len(decoded_messages) == 0:
             raise DecodeError(
